@@ -52,6 +52,7 @@ func runC13(p *core.Program, r *core.Report) {
 	a10Report(p, r, "R5", "pkg/types")
 	c13R6(p, r)
 	c13R7(p, r)
+	c13R9(p, r)
 	c13R8(p, r)
 }
 
@@ -1067,4 +1068,58 @@ func embedsUniverseRecord(t types.Type) bool {
 		}
 	}
 	return false
+}
+
+// c13R9: "mirrors go list's view": what go/packages answered is not edited. No function of the library assigns a field of
+// a *packages.Package or *packages.Module (the module's GoVersion, Path and Dir are read by the file writer and by
+// SourceDir as they were reported).
+func c13R9(p *core.Program, r *core.Report) {
+	const rule = "R9"
+	r.Floor(rule, 1)
+	n, bad := 0, 0
+	for _, f := range p.Funcs() {
+		rel := core.RelPkg(f.Pkg.PkgPath)
+		if f.Body == nil || (!strings.HasPrefix(rel, "pkg/") && !strings.HasPrefix(rel, "devpkg/")) {
+			continue
+		}
+		n++
+		info := f.Info()
+		ast.Inspect(f.Body, func(m ast.Node) bool {
+			if lit, isLit := m.(*ast.FuncLit); isLit && lit != f.Lit {
+				return false
+			}
+			var lhs []ast.Expr
+			switch x := m.(type) {
+			case *ast.AssignStmt:
+				if x.Tok != token.DEFINE {
+					lhs = x.Lhs
+				}
+			case *ast.IncDecStmt:
+				lhs = []ast.Expr{x.X}
+			}
+			for _, l := range lhs {
+				e := ast.Unparen(l)
+				for {
+					if ix, isIx := e.(*ast.IndexExpr); isIx {
+						e = ast.Unparen(ix.X)
+						continue
+					}
+					break
+				}
+				sel, isSel := e.(*ast.SelectorExpr)
+				if !isSel {
+					continue
+				}
+				switch core.NamedTypeName(info.TypeOf(sel.X)) {
+				case "golang.org/x/tools/go/packages.Package", "golang.org/x/tools/go/packages.Module":
+					bad++
+					r.Bad(rule, f, "what go/packages reported is not edited: "+core.ExprStr(l), m.Pos(), "the loader's answer is changed after loading ("+core.ExprStr(l)+"): Module(), and everything derived from it - the language version given to gofumpt, the module path and directory SourceDir computes with - no longer is what go list reports for the module")
+				}
+			}
+			return true
+		})
+	}
+	if bad == 0 {
+		r.OK(rule, nil, "no field of a loaded packages.Package / packages.Module is assigned", token.NoPos, itoa(int64(n))+" function bodies scanned")
+	}
 }
